@@ -170,6 +170,8 @@ RECIPES = {
                    opts={"crash": "process", "tears": "aimed", "cont": True, "max-points": "800"},
                    opts_thorough={"crash": "process", "tears": "all", "cont": True, "max-points": "8000"},
                    thorough_factor=6),
+              # clean histories: batches spanning several files, GC passes triggered by other queues, clean restarts
+              dict(cmd="run", gen="aim-span:24,batch:20,big:6,aim-batch:40", policy="always_flush"),
               dict(cmd="damage", gen="batch:24,big:4,aim-batch:30,aim-recreate:20", policy="always_flush",
                    opts={"classes": "payload,crc,hdr"},
                    opts_thorough={"classes": "payload,crc,hdr", "thorough": True}, thorough_factor=6)],
